@@ -46,7 +46,10 @@ def generate(rng, tier):
             if bid not in started:
                 types = rng.choice([[cl.TYPE], [cl.TYPE2], [cl.TYPE, cl.TYPE2]])
                 ops.append({"t": round(t, 6), "op": "vbrowse", "h": "B", "id": bid, "types": types,
-                            "delay": rng.choice([None, 1000, 60000])})
+                            "delay": rng.choice([None, 1000, 60000]),
+                            # the listener does what every example does: it looks the service up from inside add_service
+                            # with the very (type, name) pair it was handed
+                            "lookup_on_add": rng.choice([None, None, 200])})
                 started.add(bid)
                 t += rng.choice([0.000001, 0.2])
             elif bid not in cancelled and rng.random() < 0.3:
